@@ -39,11 +39,18 @@ def cases(tier, seed):
         for (pn, pat), sc in itertools.product(pats, scales):
             for H in dating.H_menu(a, tier):
                 out.append({"arg": a, "mut": pat, "scale": sc, "H": H, "above_root": 1 if pn == "mod3" else 0})
+            if pn == "ones" and sc == "1":
+                # further input decorators: other node numbering, sites with mutations on several nodes, missing data
+                if a["nn"] - a["n"] > 1:
+                    out.append({"arg": a, "mut": pat, "scale": sc, "H": {"kind": "cont"}, "renumber": "rotate"})
+                out.append({"arg": a, "mut": pat, "scale": sc, "H": {"kind": "cont"}, "merge_sites": True})
+                if a["L"] > 1:
+                    out.append({"arg": a, "mut": pat, "scale": sc, "H": {"kind": "cont"}, "K": [0, a["L"] - 1]})
     return {
         "cases": out,
         "states": sp.states,
         "transitions": sp.transitions,
-        "bound": f"{sp.describe()} x mutation menu x scales {scales} x H menu x 3 methods x mbl x constr_iterations x VG options",
+        "bound": f"{sp.describe()} x mutation menu x scales {scales} x H menu (+ rotated node numbering, multi-node sites, missing data) x 3 methods x mbl x constr_iterations x VG options",
         "exhaustive": True,
     }
 
@@ -123,5 +130,5 @@ def run(case):
         tags[f"returned:{method}"] = tags.get(f"returned:{method}", 0) + 1
         eff = 1e-8 if mbl is None else mbl
         if check_output(ts, res, eff, viol, tags, sub):
-            keys.append(f"{case['arg']['id']}|{case['mut']}|{case['scale']}|{case['H']}|{method}|{kw}")
+            keys.append(f"{case['arg']['id']}|{case['mut']}|{case['scale']}|{case['H']}|{case.get('renumber')}|{case.get('merge_sites')}|{case.get('K')}|{method}|{kw}")
     return {"evals": evals, "viol": viol, "tags": tags, "keys": keys}
